@@ -1,6 +1,193 @@
 """native replay for C17: metadata precedence and scan_id accounting around a rejected open_run"""
+import copy
+import os
+
 from bluesky import RunEngine
-from bluesky.utils import Msg
+from bluesky.utils import IllegalMessageSequence, Msg
+
+ROOT = os.path.dirname(os.path.dirname(os.path.abspath(__file__)))
+ABSENT = "<absent>"
+
+
+def _users(info):
+    """the validators / normalizers / plan / merge of contracts/refs/c17.py - the same text the contracts execute"""
+    ns = {"__name__": "verif_ref_c17"}
+    path = os.path.join(ROOT, info.get("ref_file", "contracts/refs/c17.py"))
+    exec(compile(open(path).read(), path, "exec"), ns)
+    return ns
+
+
+def _int(model, name, default):
+    try:
+        return int(str(model[name]).replace("(", "").replace(")", "").replace(" ", ""))
+    except Exception:
+        return default
+
+
+def _values(model, src, keys, tag=""):
+    out = {}
+    for k in keys:
+        if k == "scan_id":
+            out[k] = _int(model, "scan_id", 41) if src == "md" else _int(model, f"v_scan_id_{src}", {"call": 1000, "msg": 2000}[src])
+        elif k == "sample":
+            out[k] = {"name": "md:sample"}
+        else:
+            out[k] = f"{src}{tag}:{k}"
+    return out
+
+
+def _strip(doc):
+    return {k: v for k, v in doc.items() if k not in ("uid", "time")}
+
+
+def _transform(mode, d):
+    """what the normalizer of contracts/refs/c17.py makes of the merged metadata"""
+    if mode == "default":
+        return d
+    out = copy.deepcopy(d)
+    out["normalized"] = mode
+    if mode == "new":
+        del out["only_md"]
+    else:
+        out["only_md"] = "normalizer:only_md"
+        if "sample" in out:
+            out["sample"] = {"name": "normalizer:sample"}
+    return out
+
+
+def scenario(model, info, art):
+    """builds the case of the counter-model (which source holds which key, what the validator / normalizer do, the
+    sequence of open_run messages, one or two RE(...) calls) on a real RunEngine and evaluates the clause named in
+    info['clause'] on the documents and on RE.md / the sources"""
+    case, clause = info["case"], info["clause"]
+    users = _users(info)
+    merged = users["merged"]
+    problems = {c: [] for c in ("merge", "scan_id", "frame", "shown", "refused", "registered", "per_call")}
+    md = _values(model, "md", case["md"])
+    RE = RunEngine(md, context_managers=[])
+    docs = []
+    RE.subscribe(lambda n, d: docs.append((n, d)))
+
+    if case.get("two_calls"):
+        base = RE.md.get("scan_id", 0)
+        pre_md = copy.deepcopy(dict(RE.md))
+        n = 0
+        for ci, c in enumerate(case["calls"]):
+            kw = _values(model, "call", c["call"], tag=str(ci))
+            runs = [(r["run"], _values(model, "msg", r["md"], tag=f"{ci}{r['run']}")) for r in c["runs"]]
+            docs.clear()
+            RE(users["my_plan"](runs), **kw)
+            starts = [d for nm, d in docs if nm == "start"]
+            if len(starts) != len(runs):
+                problems["per_call"].append(f"call {ci}: {len(starts)} RunStart documents for {len(runs)} runs")
+                problems["merge"].append(problems["per_call"][-1])
+                continue
+            for st, (rk, m) in zip(starts, runs):
+                n += 1
+                want = merged(pre_md, "generator", "my_plan", m, kw, base + n)
+                if _strip(st) != want:
+                    text = f"call {ci} run {rk}: RunStart {_strip(st)!r}, documented merge {want!r}"
+                    problems["merge"].append(text)
+                    extra = set(_strip(st)) - set(want)
+                    if extra or any(_strip(st).get(k) != v for k, v in kw.items()):
+                        problems["per_call"].append(text)
+        if RE.md.get("scan_id") != base + n:
+            problems["scan_id"].append(f"RE.md['scan_id'] is {RE.md.get('scan_id')!r} after {n} opened runs from {base}")
+        bad = problems[clause]
+        return ("confirmed" if bad else "contradicted"), "; ".join(bad) or "two calls: every RunStart is the documented merge"
+
+    vseen, nseen = [], []
+    vmode, nmode = case["validator"], case["normalizer"]
+    default_normalizer = RE.md_normalizer
+    if vmode != "default":
+        RE.md_validator = users["make_validator"](vseen, vmode)
+    if nmode != "default":
+        RE.md_normalizer = users["make_normalizer"](nseen, nmode)
+    call_md = _values(model, "call", case["call"])
+    state = {"opened": 0, "nmode": nmode, "vmode": vmode}
+    opened_uids = []
+
+    def my_plan():
+        for key in case.get("pre_open", []):
+            yield Msg("open_run", run=key)                      # the run that is still open when the case starts
+        docs.clear()
+        base = RE.md.get("scan_id", ABSENT)
+        state["opened"] = 0
+
+        def sid():
+            if state["opened"] == 0:
+                return base
+            return (0 if base is ABSENT else base) + state["opened"]
+        for i, run in enumerate(case["runs"]):
+            msg_md = _values(model, "msg", run["md"], tag="" if i == 0 else str(i + 1))
+            m = Msg("open_run", run=run["run"], **msg_md)
+            pre = {"md": copy.deepcopy(dict(RE.md)), "call": copy.deepcopy(dict(RE._metadata_per_call)), "msg": copy.deepcopy(dict(m.kwargs))}
+            n0, nv, nn = len(docs), len(vseen), len(nseen)
+            refused_by = "open" if run["run"] in case.get("pre_open", []) else "validator" if state["vmode"] == "reject" else \
+                "normalizer" if state["nmode"] == "raise" else None
+            shown = merged(pre["md"], "generator", "my_plan", pre["msg"], pre["call"], (0 if base is ABSENT else base) + state["opened"] + 1)
+            try:
+                uid = yield m
+                outcome = ("ok", uid)
+            except Exception as e:          # the engine hands the refusal to the plan
+                outcome = ("raise", e)
+            new = docs[n0:]
+            tag = f"run {i + 1}"
+            if refused_by is None:
+                state["opened"] += 1
+                starts = [d for nm, d in new if nm == "start"]
+                if outcome[0] != "ok" or len(new) != 1 or len(starts) != 1:
+                    problems["merge"].append(f"{tag}: outcome {outcome!r}, documents {[nm for nm, d in new]}")
+                else:
+                    want = _transform(state["nmode"], shown)
+                    if _strip(starts[0]) != want:
+                        problems["merge"].append(f"{tag}: RunStart {_strip(starts[0])!r}, documented {want!r}")
+                    opened_uids.append(starts[0]["uid"])
+                    if outcome[1] != starts[0]["uid"]:
+                        problems["registered"].append(f"{tag}: open_run returned {outcome[1]!r}, RunStart uid {starts[0]['uid']!r}")
+                if RE.md.get("scan_id", ABSENT) != sid():
+                    problems["scan_id"].append(f"{tag}: RE.md['scan_id'] is {RE.md.get('scan_id')!r}, expected {sid()!r}")
+            else:
+                want_exc = IllegalMessageSequence if refused_by == "open" else ValueError
+                if outcome[0] != "raise" or not isinstance(outcome[1], want_exc) or new:
+                    problems["refused"].append(f"{tag}: outcome {outcome!r}, documents {[nm for nm, d in new]}")
+                if RE.md.get("scan_id", ABSENT) != sid():
+                    problems["refused"].append(f"{tag}: refused by the {refused_by}, RE.md['scan_id'] {RE.md.get('scan_id', ABSENT)!r}, was {sid()!r}")
+            # frame: the sources are as they were (RE.md: only scan_id)
+            now = {"md": dict(RE.md), "call": dict(RE._metadata_per_call), "msg": dict(m.kwargs)}
+            for which in ("md", "call", "msg"):
+                a, b = dict(now[which]), dict(pre[which])
+                if which == "md":
+                    a.pop("scan_id", None)
+                    b.pop("scan_id", None)
+                    if now["md"].get("scan_id", ABSENT) != sid():
+                        problems["frame"].append(f"{tag}: RE.md['scan_id'] {now['md'].get('scan_id', ABSENT)!r}, expected {sid()!r}")
+                if a != b:
+                    problems["frame"].append(f"{tag}: source '{which}' changed from {b!r} to {a!r}")
+            # shown: what the validator / normalizer saw
+            if refused_by != "open":
+                if state["vmode"] != "default" and (len(vseen) != nv + 1 or vseen[-1] != shown):
+                    problems["shown"].append(f"{tag}: validator was shown {vseen[nv:]!r}, the merge is {shown!r}")
+                if state["nmode"] != "default" and refused_by != "validator" and (len(nseen) != nn + 1 or nseen[-1] != shown):
+                    problems["shown"].append(f"{tag}: normalizer was shown {nseen[nn:]!r}, the merge is {shown!r}")
+            elif len(vseen) != nv:
+                problems["refused"].append(f"{tag}: validator consulted for a run key that is already open")
+            if refused_by is not None and case.get("then") == "accept":
+                RE.md_validator = users["make_validator"](vseen, "accept")
+                RE.md_normalizer = default_normalizer
+                state["vmode"], state["nmode"] = "accept", "default"
+            if outcome[0] == "ok" and refused_by is None:
+                yield Msg("close_run", run=run["run"])
+        for key in case.get("pre_open", []):
+            yield Msg("close_run", run=key)
+
+    ret = RE(my_plan(), **call_md)
+    got = tuple(ret) if isinstance(ret, (tuple, list)) else tuple(getattr(ret, "run_start_uids", ()))
+    if list(got)[len(case.get("pre_open", [])):] != opened_uids:
+        problems["registered"].append(f"RE(...) returned {got!r}, RunStart uids {opened_uids!r}")
+    bad = problems[clause]
+    return ("confirmed" if bad else "contradicted"), "; ".join(bad) or "every RunStart / RE.md as documented"
+
 
 
 def precedence(model, info, art):
